@@ -26,8 +26,8 @@ const (
 	kAtom kind = iota // symbolic input, compared through its rank
 	kConc             // concrete integer (literal, result code)
 	kBool
-	kArr  // [2]int value (copied on assignment)
-	kList // read-only list of kArr (the receiver of a Less method)
+	kArr    // [2]int value (copied on assignment)
+	kList   // read-only list of kArr (the receiver of a Less method)
 	kStruct // a struct value with named fields
 	kLen    // a slice known only by its length
 )
